@@ -44,14 +44,14 @@ Notation app1 := (apply_op id_of inline_key).
 Notation appl := (apply_ops id_of inline_key).
 
 (* ---- the book ---------------------------------------------------------------- *)
-Definition book_step (cap : Z) (b : abook) (o : psop) : abook :=
+Definition book_step (cap maxu : Z) (b : abook) (o : psop) : abook :=
   match o with
-  | PUpdateAddrs p old new => a_update b p old new
-  | PAddAddrs p l ttl => c_add cap b p (map (to_raw p) (filter has_transport l)) ttl
+  | PUpdateAddrs p old new => g_update maxu b p old new
+  | PAddAddrs p l ttl => gc_add cap maxu b p (map (to_raw p) (filter has_transport l)) ttl
   | _ => b
   end.
 
-Lemma apply_op_book s o : ps_book (app1 s o) = book_step (ps_pcap s) (ps_book s) o.
+Lemma apply_op_book s o : ps_book (app1 s o) = book_step (ps_pcap s) (ps_maxu s) (ps_book s) o.
 Proof.
   destruct o; cbn; try reflexivity.
   - destruct (_ <? _); reflexivity.
@@ -60,6 +60,14 @@ Proof.
 Qed.
 
 Lemma apply_op_pcap s o : ps_pcap (app1 s o) = ps_pcap s.
+Proof.
+  destruct o; cbn; try reflexivity.
+  - destruct (_ <? _); reflexivity.
+  - destruct (alist_get p (ps_keys s)), (inline_key p); reflexivity.
+  - destruct (_ =? _); reflexivity.
+Qed.
+
+Lemma apply_op_maxu s o : ps_maxu (app1 s o) = ps_maxu s.
 Proof.
   destruct o; cbn; try reflexivity.
   - destruct (_ <? _); reflexivity.
@@ -78,14 +86,19 @@ Proof.
   revert s. induction l as [|o l IH]; intros s; [reflexivity|]. now rewrite apply_ops_cons, IH, apply_op_pcap.
 Qed.
 
-Lemma apply_ops_book s l : ps_book (appl s l) = fold_left (book_step (ps_pcap s)) l (ps_book s).
+Lemma apply_ops_maxu s l : ps_maxu (appl s l) = ps_maxu s.
 Proof.
-  revert s. induction l as [|o l IH]; intros s; [reflexivity|].
-  rewrite apply_ops_cons, IH, apply_op_book, apply_op_pcap. reflexivity.
+  revert s. induction l as [|o l IH]; intros s; [reflexivity|]. now rewrite apply_ops_cons, IH, apply_op_maxu.
 Qed.
 
-Lemma book_step_ok cap b o : book_ok b -> book_ok (book_step cap b o).
-Proof. destruct o; cbn; intros H; try exact H; [now apply a_update_ok|now apply c_add_ok]. Qed.
+Lemma apply_ops_book s l : ps_book (appl s l) = fold_left (book_step (ps_pcap s) (ps_maxu s)) l (ps_book s).
+Proof.
+  revert s. induction l as [|o l IH]; intros s; [reflexivity|].
+  rewrite apply_ops_cons, IH, apply_op_book, apply_op_pcap, apply_op_maxu. reflexivity.
+Qed.
+
+Lemma book_step_ok cap maxu b o : book_ok b -> book_ok (book_step cap maxu b o).
+Proof. destruct o; cbn; intros H; try exact H; [now apply g_update_ok|now apply gc_add_ok]. Qed.
 
 Lemma apply_op_ok s o : book_ok (ps_book s) -> book_ok (ps_book (app1 s o)).
 Proof. rewrite apply_op_book. apply book_step_ok. Qed.
@@ -123,8 +136,8 @@ Proof.
   - cbn -[alist_set alist_get] in *. destruct (_ <? _); [reflexivity|].
     apply dump_peer_eq; try reflexivity; try assumption. cbn -[alist_set alist_get].
     now apply alist_get_set_other.
-  - apply dump_peer_eq; try reflexivity; try assumption. cbn. apply a_update_other; [exact Hq|apply Ho].
-  - apply dump_peer_eq; try reflexivity; try assumption. cbn. apply c_add_other; [exact Hq|apply Ho].
+  - apply dump_peer_eq; try reflexivity; try assumption. cbn. apply g_update_other; [exact Hq|apply Ho].
+  - apply dump_peer_eq; try reflexivity; try assumption. cbn. apply gc_add_other; [exact Hq|apply Ho].
   - apply dump_peer_eq; try reflexivity; try assumption. intros k0. cbn -[meta_get meta_set].
     now apply meta_get_set_other.
   - cbn -[alist_set alist_get] in *. destruct (alist_get p (ps_keys s)); [reflexivity|]. destruct (inline_key p); [|reflexivity].
